@@ -32,6 +32,8 @@ func dynProfile(preserve, bluegreen bool) Profile {
 		{"affinity", []string{"cookie"}},
 		{"balance-algorithm", []string{"roundrobin", "leastconn"}},
 		{"ssl-redirect", []string{"false"}},
+		// host scoped, and copied to the backends of the host when the configuration is synchronized
+		{"auth-tls-secret", []string{"ca1"}},
 	}
 	if preserve {
 		p.Ann = append(p.Ann, annChoice{"session-cookie-preserve", []string{"true", "false"}}, annChoice{"session-cookie-dynamic", []string{"false"}},
